@@ -144,4 +144,25 @@ example : tokens .sqlite (render .sqlite (.instStr [48, 41, 32, 79, 82, 32, 40, 
     some [.str [48, 41, 32, 79, 82, 32, 40, 49, 61, 49], .punct 41] := by
   rw [C02_instance_value _ _ _ (by decide) (by simp [admissible]), tokens_close]; rfl
 
+theorem admList_strs (d : Dialect) (vs : List Str) (h : ∀ v ∈ vs, admissible d v) :
+    AdmList d (vs.map Val.str) = true := by
+  induction vs with
+  | nil => rfl
+  | cons v vs ih =>
+    simp only [List.map_cons, AdmList, Adm, Bool.and_eq_true, decide_eq_true_eq]
+    exact ⟨h v (by simp), ih (fun x hx => h x (by simp [hx]))⟩
+
+/-- (v-e) ENUM / CHECK DDL: the literal list `(v₁, v₂, …)` that `SOEnumCol` places in the column type
+    (`', '.join(sqlrepr(v, db) …)` inside parentheses = the sequence rendering) is, for the dialect it is
+    rendered for, `(` one string token per declared value `,` … `)`, each decoding to exactly that value —
+    for any number of values, whatever follows the closing parenthesis. -/
+theorem C02_enum_literal_list (d : Dialect) (vs : List Str) (rest : Str)
+    (h : ∀ v ∈ vs, admissible d v) (hr : okAfter rest = true) :
+    tokens d (render d (.seq (vs.map .str)) ++ rest) =
+      (tokens d rest).map ((Tok.punct 40 :: (seqToks d (vs.map .str) ++ [Tok.punct 41])) ++ ·) := by
+  have := C02_lex_render_value d (.seq (vs.map .str)) rest (by simpa [Adm] using admList_strs d vs h) hr
+  simpa [valToks] using this
+
+example : seqToks .sqlite ([[92, 110], [39]].map Val.str) = [.str [92, 110], .punct 44, .str [39]] := rfl
+
 end SqlObjVerif.Lex
